@@ -1,13 +1,14 @@
-"""Compare a junit xml with the stable baseline: tools/cmpbase.py junit.xml"""
+"""Compare junit xml file(s) with the stable baseline: tools/cmpbase.py junit.xml [more.xml ...] (a test passes if it passes in any file)"""
 import json, sys, xml.etree.ElementTree as ET
 base = json.load(open("/root/.vp/BASELINE.json"))
 stable = set(base["stable_pass"])
 passed = set()
-for tc in ET.parse(sys.argv[1]).getroot().iter("testcase"):
-    ok = not any(ch.tag in ("failure", "error", "skipped") for ch in tc)
-    name = f"{tc.get('classname')}::{tc.get('name')}"
-    if ok:
-        passed.add(name)
+for fn in sys.argv[1:]:
+    for tc in ET.parse(fn).getroot().iter("testcase"):
+        ok = not any(ch.tag in ("failure", "error", "skipped") for ch in tc)
+        name = f"{tc.get('classname')}::{tc.get('name')}"
+        if ok:
+            passed.add(name)
 missing = sorted(stable - passed)
 print(f"stable={len(stable)} passed_now={len(passed)} stable_missing={len(missing)} newly_passing={len(passed - stable)}")
 for m in missing:
